@@ -1,5 +1,6 @@
 import PdshVerif.Base.Hex
 import PdshVerif.Hostlist.Cli
+import PdshVerif.Hostlist.Probed
 import PdshVerif.Hostlist.Spec
 import Driver.Util
 
@@ -8,6 +9,9 @@ import Driver.Util
     `pdshmodel hl spec`   — the independent string-level specification (C01 expansion, C15 classes) -/
 namespace Driver.HlDrv
 open PdshVerif PdshVerif.Hostlist
+
+/-- the variant of the code probed from /repo on this run -/
+def cfg : Cfg := Cfg.probed
 
 def errnoClass (e : Nat) : String :=
   if e = 0 then "0" else if e = EINVAL then "EINVAL" else if e = ERANGE then "ERANGE" else s!"E{e}"
@@ -24,12 +28,12 @@ def namesField (xs : List Str) (limit : Nat) : String :=
   s!"{shown.length}{more}:" ++ ",".intercalate (shown.map Hex.encodeChars)
 
 def probeAnswer (s : Str) (limit : Nat) : String :=
-  match create s with
+  match create cfg s with
   | .null e f => s!"null:{errnoClass e}:{fatalClass f}"
   | .ub w => "ub:" ++ (w.replace " " "_")
   | .diverge => "diverge"
   | .ok h =>
-    let a := namesField (iterAll h (limit + 1)) limit
+    let a := namesField (iterAll cfg h (limit + 1)) limit
     match shiftAll h (limit + 1) with
     | none => "ub:shift_no_range_record"
     | some sh =>
@@ -45,7 +49,7 @@ def dumpField (h : HL) : String :=
     s!" {Hex.encodeChars r.pre}:{r.lo}:{r.hi}:{r.width}:{if r.single then 1 else 0}")
 
 def cliAnswer (s : Str) (limit : Nat) : String :=
-  match cliTargets s with
+  match cliTargets cfg s with
   | .null _ f => s!"fatal:{fatalClass f}"
   | .ub w => "ub:" ++ (w.replace " " "_")
   | .diverge => "diverge"
@@ -57,7 +61,7 @@ def cliAnswer (s : Str) (limit : Nat) : String :=
     | none => "ub:shift_no_range_record"
     | some sh =>
       let a := namesField sh limit
-      let b := namesField (iterAll h (limit + 1)) limit
+      let b := namesField (iterAll cfg h (limit + 1)) limit
       s!"ok | {h.count} | {a} | " ++ (if a = b then "=" else b)
 
 def stepModel (st : Option HL) (line : String) : Option HL × String :=
@@ -73,20 +77,21 @@ def stepModel (st : Option HL) (line : String) : Option HL × String :=
   | ["create", hx], _ =>
     match Hex.decodeToChars hx with
     | some s =>
-      match create s with
+      match create cfg s with
       | .ok h => (some h, s!"ok {h.count} {h.nranges}")
       | .null e f => (none, s!"null {errnoClass e} {fatalClass f}")
       | .ub w => (none, "ub:" ++ (w.replace " " "_"))
       | .diverge => (none, "diverge")
     | none => (st, "bad-op")
   | ["new"], _ => (some HL.new, "ok 0 0")
+  | ["cfg"], _ => (st, cfg.describe)
   | _, none => (none, "no-list")
   | ["count"], some h => (st, s!"{h.count}")
   | ["nranges"], some h => (st, s!"{h.nranges}")
   | ["dump"], some h => (st, dumpField h)
   | ["hosts", lim], some h =>
     match lim.toNat? with
-    | some l => (st, namesField (iterAll h (l + 1)) l)
+    | some l => (st, namesField (iterAll cfg h (l + 1)) l)
     | none => (st, "bad-op")
   | ["shift"], some h =>
     if shiftCrashes h then (st, "ub:shift_no_range_record")
@@ -95,7 +100,7 @@ def stepModel (st : Option HL) (line : String) : Option HL × String :=
   | ["nth", n], some h =>
     match n.toNat? with
     | some n =>
-      match nth h n with
+      match nth cfg h n with
       | none => (st, "null")
       | some none => (st, "ub:nth_buf")
       | some (some x) => (st, Hex.encodeChars x)
